@@ -389,10 +389,10 @@ def run(ctx):
     if not ctx.deep:
         singles = [c for c in ex if len(c[0]) == 1]
         pairs = [c for c in ex if len(c[0]) == 2]
-        ex = singles + [c for i, c in enumerate(pairs) if (i + ctx.seed) % 4 == 0]
+        ex = singles + pairs
     evaluate(ctx, ex, res)
     res['scopes']['exhaustive_singles_and_pairs'] = len(ex)
-    n = 6000 if ctx.deep else 400
+    n = 8000 if ctx.deep else 1500
     evaluate(ctx, [random_case(ctx.rng) for _ in range(n)], res)
     res['scopes']['generated'] = n
     return res.finish(RULE, exhaustive=ctx.deep)
